@@ -26,6 +26,18 @@ CHECKS = {
          "The finite grid of degenerate allocators x every exported entry point is executed; any panic, non-zero count, transferred sample or changed caller slice is a violation. Thorough tier enumerates all 169 type pairs and 169 conversion instantiations.",
          "Go runtime panics are observed through recover(); buffer contents re-read through the verif hook.",
          "6/C20"),
+ "C02": ("reference-model monitor (Go-slice model + address identity from the hook) over enumerated and hostile slice ranges",
+         "All (start,end) pairs in and around the capacity of every small root shape, nested up to depth 4, plus overflow-provoking 64-bit arguments, are executed against the real Slice; panic/no-panic, shape, base address, contents over the child's capacity and write visibility both ways are compared with the model.",
+         "Validity is decided by the model without multiplication; addresses and beyond-length contents come from the verif hook.",
+         "6/C02"),
+ "C03": ("reference-model monitor over generated append configurations and chains",
+         "Every generated Append (destination kinds, source kinds incl. self and same-storage sources, fit classes, chains) is followed by a comparison of every live view and every storage with the Go-slice model, including in-place vs. growth, capacity alignment, freshness of new storage and untouched old storage.",
+         "Domain restricted exactly as the property states; growth capacity adopted after constraint checks; storage re-read through the verif hook.",
+         "6/C03"),
+ "C04": ("reference-model monitor over call-count classes on windows of stamped parents",
+         "AppendSample is executed below, at and far beyond capacity on windows of larger buffers; after every call value, position, length, unchanged capacity/base address, alias visibility and every other cell of the storage are compared with the model.",
+         "Storage re-read through the verif hook.",
+         "6/C04"),
 }
 PENDING = {}
 
